@@ -219,7 +219,7 @@ def features(t):
 
     def walk(e, top=False):
         k = e[0]
-        if top and ty(e) != "bool":
+        if top and ty(e) not in ("bool", "num"):
             f.add("a")
         if k in ("attrval", "hasattr"):
             if k == "attrval":
@@ -230,7 +230,7 @@ def features(t):
             o, l, r = e[1], e[2], e[3]
             tl, tr = ty(l), ty(r)
             if o in ("and_", "or_"):
-                if tl != "bool" or tr != "bool":
+                if "attr" in (tl, tr):
                     f.add("b")
             elif o in ("eq", "ne"):
                 if "text" in (tl, tr):
@@ -435,6 +435,11 @@ def run(ctx, args):
     ctx.cov["distribution"]["trees"] = len(docs)
 
     css(ctx, keep[:12] if quick else keep[:60])
+    for f in ctx.findings:
+        if f["status"] == "fixed":
+            ctx.count(1, "fixed-finding-regression-case")
+            if replay_open(f):
+                ctx.fail("regression of fixed finding %s" % f["id"], f["witness"])
 
     return ctx.finish(
         rule="generated documents (namespaces, default-namespace resets, mixed content, comments, PIs) x every kind of "
